@@ -86,9 +86,25 @@ TEXT = {
 TECH = "Lean 4 theorems over a hand-written model + differential correspondence check (Rust harness vs compiled Lean driver)"
 
 checks, na = [], []
+TABLES = (" Second tie, by translation: tools/extract.py regenerates lean/MicroHttp/Extracted.lean from /repo's source on every run and "
+          "Props/Tables.lean proves (by kernel evaluation) that the model uses the same {what}; an item the translator cannot find falls back to the differential run.")
+EXTRA = {
+ "C04": TABLES.format(what="BUFFER_SIZE, MAX_PAYLOAD_SIZE and CRLF_LEN") + " The default limit (never set) is probed on connections and servers as well.",
+ "C05": TABLES.format(what="status / version tables, default server identity, Allow delimiter and writer literals") +
+        " Moreover the writer functions of response.rs (StatusLine::write_all, ResponseHeaders::{write_allow_header, write_deprecation_header, write_all}, Response::{write_body, write_all}) are translated "
+        "statement by statement into a Lean function and Tables.response_writer proves it equal to the model's piece list for EVERY response.",
+ "C10": TABLES.format(what="MAX_CONNECTIONS, the equality form of the capacity test and the 503 literal"),
+ "C15": TABLES.format(what="recognised header names (canonical and the lower-case keys Header::try_from matches) and media-type spellings") +
+        " The header rules are also written out in Rust from the property text (rule_block) and evaluated on every generated block, so a divergence comes with a concrete failing block.",
+ "C16": TABLES.format(what="method / version / media-type / status tables (both directions) and HTTP_SCHEME_PREFIX"),
+ "C18": TABLES.format(what="MAX_CONNECTIONS and the size of the event array (MAX_CONNECTIONS + 2)"),
+ "C07": " The suite srv-fault injects, at the libc boundary of the harness process (interposed recvmsg/write, nothing in /repo instrumented), reads that end or fail on a plain IN event and writes that return zero / EINTR / EAGAIN / EPIPE / short counts; a 500 must reach only a client whose read failed.",
+ "C09": " The suite srv-fault injects, at the libc boundary of the harness process (interposed recvmsg/write, nothing in /repo instrumented), reads that end or fail on a plain IN event and writes that return zero / EINTR / EAGAIN / EPIPE / short counts: the poll must keep returning normally, the witness must be served in full, and a connection the server was told has ended must be released once answered.",
+}
 for pid in ids:
     if pid in props and props[pid].get("theorems") and pid in TEXT:
         text, note = TEXT[pid]
+        text = text + EXTRA.get(pid, "")
         checks.append({
             "property_id": pid,
             "quick_cmd": f"./check {pid} --tier quick",
